@@ -10,6 +10,8 @@ import (
 	"fmt"
 	"strings"
 
+	"github.com/alttpo/snes/emulator/cpualt"
+
 	"verifharness/internal/cpuh"
 	"verifharness/internal/drv"
 	"verifharness/internal/prng"
@@ -139,65 +141,7 @@ func runTrace() {
 			viol(fmt.Sprintf("disassembling changed the CPU, the interrupt latch (%d -> %d) or wrote memory (primary)", latch, p.CPU.Interrupt), c.regs.Canon(), p.Get().Canon()+"|"+mem.WritesCanon())
 		}
 		got := canonPrimary(line)
-		// oracles on the parsed line, from the interpreter itself
-		fields := strings.Split(got, "|")
-		if len(fields) == 6 {
-			opc := c.byteAt(uint32(c.regs.RK)<<16 | uint32(c.regs.PC))
-			// bytes shown = bytes at PBR:PC.. (wrapping in the bank), as many as the interpreter consumes
-			nb := len(strings.Fields(fields[1]))
-			var exp []string
-			for k := 0; k < nb; k++ {
-				exp = append(exp, fmt.Sprintf("%02x", c.byteAt(uint32(c.regs.RK)<<16|uint32(c.regs.PC+uint16(k)))))
-			}
-			if fields[1] != "???" && strings.Join(exp, " ") != fields[1] {
-				viol("bytes shown are not the bytes at the instruction's address", strings.Join(exp, " "), fields[1])
-			}
-			// executed length: run the instruction; for non-transferring opcodes the PC advances by the shown length
-			p2 := cpuh.NewPrimary(mem.Clone())
-			p2.Set(c.regs)
-			if _, _, pn := p2.Step(); pn == "" {
-				after := p2.Get()
-				adv := int(after.PC - c.regs.PC)
-				if !isTransfer(opc) && after.RK == c.regs.RK && adv != nb {
-					viol(fmt.Sprintf("opcode %02x: %d bytes shown but the interpreter advanced the PC by %d", opc, nb, adv), fmt.Sprint(adv), fmt.Sprint(nb))
-				}
-				// a relative branch shows where it leads: compare with the real PC after a taken branch
-				if isRel8(opc) && adv != 2 {
-					dest := fmt.Sprintf("($%04x", after.PC)
-					if !strings.Contains(fields[3], dest) {
-						viol(fmt.Sprintf("branch %02x leads to %04x but the trace shows %q", opc, after.PC, fields[3]), dest, fields[3])
-					}
-				}
-				if opc == 0x82 { // BRL always taken
-					if fields[3] != fmt.Sprintf("$%04x", after.PC) {
-						viol("BRL destination", fmt.Sprintf("$%04x", after.PC), fields[3])
-					}
-				}
-			}
-			// register / flag columns
-			g := c.regs
-			sh := func(w bool, v16 uint16, v8 uint8) string {
-				if w {
-					return fmt.Sprintf("%04x", v16)
-				}
-				return fmt.Sprintf("--%02x", v8)
-			}
-			regs := "A=" + sh(g.M == 0, g.RA, g.RAl) + " X=" + sh(g.X == 0, g.RX, g.RXl) + " Y=" + sh(g.X == 0, g.RY, g.RYl)
-			if fields[4] != regs {
-				viol("register columns do not show the live register values", regs, fields[4])
-			}
-			fl := []byte("NVMXDIZC")
-			for k, b := range []byte{g.N, g.V, g.M, g.X, g.D, g.I, g.Z, g.C} {
-				if b == 0 {
-					fl[k] = '-'
-				}
-			}
-			if fields[5] != string(fl) {
-				viol("flag column", string(fl), fields[5])
-			}
-		} else {
-			viol("trace line does not have the documented shape", "", line)
-		}
+		primaryLineOracle(&c, mem, line, got, viol)
 		if replies != nil && replies[2*i] != got {
 			rep.Add(report.Finding{Property: "C14", Kind: "disagreement", Clause: "Lean Cpu.traceRec vs cpu65c816.DisassembleCurrentPC", Input: in, Expected: replies[2*i] + " (model)", Actual: got + " (go)"})
 		}
@@ -241,13 +185,265 @@ func runTrace() {
 			rep.Sample(map[string]string{"case": in, "go": got})
 		}
 	}
+	n += runRetrace(rep)
 	rep.Evaluations = n
 	rep.Distinct = int64(len(distinct))
 	rep.Rule = "every opcode x boundary-biased register files (PC near $FFFF so that operand bytes wrap in the bank, all M/X/E combinations) x seeded memory: " +
 		"cpu65c816.DisassembleCurrentPC, cpualt.Disassemble and cpualt.DisassembleTo parsed into (cycles, bank:pc, bytes, mnemonic, operand text, A/X/Y, flags) and compared with the " +
 		"compiled Lean model; oracles: bytes shown = memory at the instruction's address; shown length = PC advance of the real Step for non-transferring opcodes; relative branches show the PC the real " +
-		"Step reaches when taken; register/flag columns = live values; no register or memory change. evaluations = trace lines"
+		"Step reaches when taken; register/flag columns = live values; no register or memory change; one CPU object per package re-traces the same address six times in a row (bytes there replaced, the instruction executed in between, " +
+		"M / X switched and switched back, original bytes restored; DisassembleCurrentPC and DisassembleTo alternately), every line under the same clauses and equal to the line of an object that traced nothing / something else before. evaluations = trace lines"
 	rep.Emit()
+}
+
+// ---- the same CPU object traces the same location again after something changed ----
+//
+// A trace line describes the instruction that is at PBR:PC now, for the widths in force now. One CPU object of each package
+// serves the whole pass and is asked for a line at the same address several times in a row: with the bytes there replaced
+// (the harness rewrote the code, or the instruction executed in between modified it), with M / X switched and switched back,
+// with the original bytes restored; through DisassembleCurrentPC and DisassembleTo alternately. Every line is put to the same
+// clauses as above and compared with the line of a CPU object that has never traced anything.
+func runRetrace(rep *report.Report) (n int64) {
+	r := prng.New(seed ^ 0x7e7ace)
+	perOp := 3
+	if tier == "thorough" {
+		perOp = 60
+	}
+	var p *cpuh.Primary
+	for op := 0; op < 256; op++ {
+		for k := 0; k < perOp; k++ {
+			c := genCPUCase(r.Fork(), op, k%3 != 0)
+			pcA := func(i int) uint32 { return uint32(c.regs.RK)<<16 | uint32(c.regs.PC+uint16(i)) }
+			rewrite := func(st cpuCase) cpuCase {
+				n := cpuCase{regs: st.regs, seed: st.seed, ovl: map[uint32]byte{}, tag: st.tag}
+				for a, v := range st.ovl {
+					n.ovl[a] = v
+				}
+				old := st.byteAt(pcA(0))
+				nb := r.U8()
+				if nb == old {
+					nb = old + 1 + byte(r.N(255))
+				}
+				n.ovl[pcA(0)] = nb
+				for i := 1; i < 4; i++ {
+					if r.Chance(70) {
+						n.ovl[pcA(i)] = r.U8()
+					}
+				}
+				return n
+			}
+			widths := func(st cpuCase) cpuCase {
+				n := st
+				if n.regs.E == 0 {
+					switch r.N(3) {
+					case 0:
+						n.regs.M ^= 1
+					case 1:
+						n.regs.X ^= 1
+					default:
+						n.regs.M ^= 1
+						n.regs.X ^= 1
+					}
+				}
+				return n
+			}
+			s1 := rewrite(c)
+			s2 := widths(s1)
+			s3 := rewrite(s2)
+			s4 := s3
+			s4.regs.M, s4.regs.X = s1.regs.M, s1.regs.X
+			states := []cpuCase{c, s1, s2, s3, s4, c}
+			what := []string{"first line", "bytes at the address replaced", "M / X switched", "bytes replaced again", "M / X switched back", "original bytes and widths again"}
+			execBetween := r.Chance(30)
+			prevIn := ""
+			for si := range states {
+				st := states[si]
+				mem := cpuh.NewMem(st.seed)
+				for a, v := range st.ovl {
+					mem.Ovl[a] = v
+				}
+				if p == nil {
+					p = cpuh.NewPrimary(mem)
+				}
+				p.Mem = mem
+				cpuh.Rebind(p)
+				p.Set(st.regs)
+				in := fmt.Sprintf("trace p %s %x %s", st.regs.Canon(), st.seed, ovlString(st.ovl))
+				full := in
+				if prevIn != "" {
+					full = "same CPU object, after [" + prevIn + "] now (" + what[si] + "): " + in
+				}
+				viol := func(clause, exp, act string) {
+					rep.Add(report.Finding{Property: "C14", Kind: "violation", Clause: "re-tracing the same address on the same CPU object: " + clause, Input: full, Expected: exp, Actual: act})
+				}
+				var line string
+				func() {
+					defer func() {
+						if rr := recover(); rr != nil {
+							line = fmt.Sprint("panic: ", rr)
+						}
+					}()
+					if si%2 == 0 {
+						line = string(p.CPU.DisassembleCurrentPC(nil))
+					} else {
+						line = string(p.CPU.DisassembleTo(p.CPU.PC, nil))
+					}
+				}()
+				n++
+				if p.Get().Canon() != st.regs.Canon() || len(mem.Writes) != 0 {
+					viol("disassembling changed the CPU or wrote memory (primary)", st.regs.Canon(), p.Get().Canon()+"|"+mem.WritesCanon())
+				}
+				primaryLineOracle(&st, mem, line, canonPrimary(line), viol)
+				q := cpuh.NewPrimary(mem.Clone())
+				q.Set(st.regs)
+				ref := ""
+				func() {
+					defer func() { recover() }()
+					ref = string(q.CPU.DisassembleCurrentPC(nil))
+				}()
+				if ref != line {
+					viol("the line differs from the line of a CPU object that has traced nothing before (same registers, same memory)", ref, line)
+				}
+				cpuh.Rebind(p)
+				// alt: Disassemble / DisassembleTo on the shared object against a reference object that looked elsewhere in between
+				memA := mem.Clone()
+				pa := cpuh.NewAlt(memA)
+				pa.Set(st.regs)
+				short, long := altLines(pa)
+				n++
+				if fs := strings.Split(canonAltShort(short), "|"); len(fs) == 4 && fs[1] != "???" {
+					var exp []string
+					for i := range strings.Fields(fs[1]) {
+						exp = append(exp, fmt.Sprintf("%02x", st.byteAt(pcA(i))))
+					}
+					if strings.Join(exp, " ") != fs[1] {
+						rep.Add(report.Finding{Property: "C14", Kind: "violation", Clause: "re-tracing the same address on the same CPU object: bytes shown are not the bytes at the instruction's address (cpualt)",
+							Input: strings.Replace(full, "trace p", "trace a", -1), Expected: strings.Join(exp, " "), Actual: fs[1]})
+					}
+				}
+				if refS, refL := altReference(st, memA); refS != short || refL != long {
+					rep.Add(report.Finding{Property: "C14", Kind: "violation", Clause: "re-tracing the same address on the same CPU object: the line differs from the line of another CPU object that traced a different place before (cpualt, same registers, same memory)",
+						Input: strings.Replace(full, "trace p", "trace a", -1), Expected: refS + " / " + refL, Actual: short + " / " + long})
+				}
+				rep.Count("re-trace: " + what[si])
+				// self-modifying code: the instruction executes on the same object, the next state keeps whatever it wrote
+				if execBetween && si == 0 {
+					if _, _, pn := p.Step(); pn == "" {
+						for _, a := range mem.Writes {
+							for j := si + 1; j < len(states)-1; j++ {
+								if a != pcA(0) && a != pcA(1) && a != pcA(2) && a != pcA(3) { // the rewritten instruction bytes stay as rewritten
+									states[j].ovl[a] = mem.Ovl[a]
+								}
+							}
+						}
+						rep.Count("re-trace: the instruction executed on the same object in between")
+					}
+				}
+				prevIn = in
+			}
+		}
+	}
+	return n
+}
+
+var altRef *cpualt.CPU
+var altRefMem *cpuh.Mem
+
+func altLines(pa *cpuh.Alt) (short, long string) {
+	var lb bytes.Buffer
+	func() {
+		defer func() {
+			if rr := recover(); rr != nil {
+				short = fmt.Sprint("panic: ", rr)
+			}
+		}()
+		short = pa.CPU.Disassemble(pa.CPU.PC)
+		pa.CPU.DisassembleCurrentPC(&lb)
+	}()
+	return short, lb.String()
+}
+
+// altReference: the lines of a second cpualt object for the same state; before that it is made to trace a different address
+func altReference(st cpuCase, mem *cpuh.Mem) (short, long string) {
+	if altRef == nil {
+		altRef = &cpualt.CPU{}
+		altRef.Init()
+		altRef.Bus.AttachReader(0, 0xFFFFFF, func(a uint32) uint8 { return altRefMem.Get(a) })
+		altRef.Bus.AttachWriter(0, 0xFFFFFF, func(a uint32, v uint8) {})
+	}
+	altRefMem = mem
+	ra := &cpuh.Alt{CPU: altRef, Mem: mem}
+	elsewhere := st.regs
+	elsewhere.PC ^= 0x5555
+	elsewhere.RK ^= 0x55
+	ra.Set(elsewhere)
+	altLines(ra)
+	ra.Set(st.regs)
+	return altLines(ra)
+}
+
+// primaryLineOracle: the property's clauses on one line of the primary disassembler (parsed: got) for the state c describes;
+// mem holds c's memory (it is cloned for the Step that tells the executed length and the branch destination)
+func primaryLineOracle(c *cpuCase, mem *cpuh.Mem, line, got string, viol func(clause, exp, act string)) {
+	// oracles on the parsed line, from the interpreter itself
+	fields := strings.Split(got, "|")
+	if len(fields) == 6 {
+		opc := c.byteAt(uint32(c.regs.RK)<<16 | uint32(c.regs.PC))
+		// bytes shown = bytes at PBR:PC.. (wrapping in the bank), as many as the interpreter consumes
+		nb := len(strings.Fields(fields[1]))
+		var exp []string
+		for k := 0; k < nb; k++ {
+			exp = append(exp, fmt.Sprintf("%02x", c.byteAt(uint32(c.regs.RK)<<16|uint32(c.regs.PC+uint16(k)))))
+		}
+		if fields[1] != "???" && strings.Join(exp, " ") != fields[1] {
+			viol("bytes shown are not the bytes at the instruction's address", strings.Join(exp, " "), fields[1])
+		}
+		// executed length: run the instruction; for non-transferring opcodes the PC advances by the shown length
+		p2 := cpuh.NewPrimary(mem.Clone())
+		p2.Set(c.regs)
+		if _, _, pn := p2.Step(); pn == "" {
+			after := p2.Get()
+			adv := int(after.PC - c.regs.PC)
+			if !isTransfer(opc) && after.RK == c.regs.RK && adv != nb {
+				viol(fmt.Sprintf("opcode %02x: %d bytes shown but the interpreter advanced the PC by %d", opc, nb, adv), fmt.Sprint(adv), fmt.Sprint(nb))
+			}
+			// a relative branch shows where it leads: compare with the real PC after a taken branch
+			if isRel8(opc) && adv != 2 {
+				dest := fmt.Sprintf("($%04x", after.PC)
+				if !strings.Contains(fields[3], dest) {
+					viol(fmt.Sprintf("branch %02x leads to %04x but the trace shows %q", opc, after.PC, fields[3]), dest, fields[3])
+				}
+			}
+			if opc == 0x82 { // BRL always taken
+				if fields[3] != fmt.Sprintf("$%04x", after.PC) {
+					viol("BRL destination", fmt.Sprintf("$%04x", after.PC), fields[3])
+				}
+			}
+		}
+		// register / flag columns
+		g := c.regs
+		sh := func(w bool, v16 uint16, v8 uint8) string {
+			if w {
+				return fmt.Sprintf("%04x", v16)
+			}
+			return fmt.Sprintf("--%02x", v8)
+		}
+		regs := "A=" + sh(g.M == 0, g.RA, g.RAl) + " X=" + sh(g.X == 0, g.RX, g.RXl) + " Y=" + sh(g.X == 0, g.RY, g.RYl)
+		if fields[4] != regs {
+			viol("register columns do not show the live register values", regs, fields[4])
+		}
+		fl := []byte("NVMXDIZC")
+		for k, b := range []byte{g.N, g.V, g.M, g.X, g.D, g.I, g.Z, g.C} {
+			if b == 0 {
+				fl[k] = '-'
+			}
+		}
+		if fields[5] != string(fl) {
+			viol("flag column", string(fl), fields[5])
+		}
+	} else {
+		viol("trace line does not have the documented shape", "", line)
+	}
 }
 
 func isRel8(op byte) bool { return op&0x1F == 0x10 || op == 0x80 }
